@@ -127,8 +127,13 @@ def oracle(schema, ops, lines, stats):
                 return (i, "lost-or-reordered", "pending commit text %s is not an extension of %s" % (ca or "-", cb or "-"))
             if len(ca) > len(cb):
                 stats["deliveries"] += 1
+        # the property's own precondition: clauses O1 / O2 speak of sessions with full-shape conversion off (the flag as reported
+        # right before the call: S = composing, ascii_mode, full_shape, ...); the stock key binder toggles it on Shift+space
+        full_shape_on = len(prev.get("S", "")) > 2 and prev["S"][2] == "1"
+        if full_shape_on and kind in ("commit", "sel", "selp"):
+            stats["skipped_full_shape_on"] += 1
         # ---- O1: commit_composition = preview reported immediately before
-        if kind == "commit":
+        if kind == "commit" and not full_shape_on:
             stats["commits"] += 1
             if prev["c"] == "1":
                 stats["commits_composing"] += 1
@@ -141,7 +146,7 @@ def oracle(schema, ops, lines, stats):
             if d["ret"] != ("1" if ca else "0"):
                 return (i, "commit-return", "commit_composition returned %s with pending text %s" % (d["ret"], ca or "-"))
         # ---- O2: selecting a displayed candidate that covers the rest
-        if kind in ("sel", "selp") and prev["n"] > 0 and prev["ge"] != "-":
+        if kind in ("sel", "selp") and prev["n"] > 0 and prev["ge"] != "-" and not full_shape_on:
             idx = int(op.split()[1])
             pos = idx if kind == "selp" else idx - prev["pg"] * prev["ps"]
             if 0 <= pos < prev["n"] and (kind == "sel" or idx < prev["ps"]):
